@@ -14,6 +14,7 @@ import (
 	"go/token"
 	"go/types"
 	"runtime/debug"
+	"time"
 	"strings"
 
 	"golang.org/x/tools/go/ssa"
@@ -36,6 +37,12 @@ type engineTrap struct {
 
 type poison struct{ why string }
 
+// StepProfile, if set (single worker only), accumulates instructions per function.
+var StepProfile map[string]int64
+
+// InitTrace, if set, receives slow package initialisations.
+var InitTrace func(string)
+
 // State of one worker's interpreter.
 type interpreter struct {
 	prog               *ssa.Program
@@ -56,6 +63,8 @@ type interpreter struct {
 	errorsNewType      types.Type
 	cfg                *Config
 	natState           map[string]interface{}
+	arena              []value
+	sp                 int
 }
 
 type deferred struct {
@@ -77,6 +86,8 @@ type frame struct {
 	panic            interface{}
 	phitemps         []value
 	tolerant         bool
+	arena            []value // arena state while this frame is the innermost one
+	sp               int
 }
 
 func (fr *frame) get(o operand) value {
@@ -551,7 +562,19 @@ func callSSA(i *interpreter, caller *frame, callpos token.Pos, fn *ssa.Function,
 	if len(i.stack) > i.maxDepth {
 		panic(boundExceeded{fmt.Sprintf("call depth exceeds %d", i.maxDepth)})
 	}
-	fr.regs = make([]value, cf.nregs)
+	// registers live in a per-interpreter arena used as a stack; SSA defines
+	// every register before it is read, so the slots are not cleared.
+	savedArena, savedSP := i.arena, i.sp
+	if i.sp+cf.nregs > len(i.arena) {
+		n := 1 << 16
+		if cf.nregs > n {
+			n = cf.nregs
+		}
+		i.arena = make([]value, n)
+		i.sp = 0
+	}
+	fr.regs = i.arena[i.sp : i.sp+cf.nregs : i.sp+cf.nregs]
+	i.sp += cf.nregs
 	copy(fr.regs, args[:cf.nparams])
 	copy(fr.regs[cf.nparams:], env)
 	for k, r := range cf.localRegs {
@@ -559,9 +582,11 @@ func callSSA(i *interpreter, caller *frame, callpos token.Pos, fn *ssa.Function,
 		fr.regs[r] = &cell
 	}
 	fr.block = cf.blocks[0]
+	fr.arena, fr.sp = i.arena, i.sp
 	for fr.block != nil {
 		runFrame(fr)
 	}
+	i.arena, i.sp = savedArena, savedSP
 	i.stack = i.stack[:len(i.stack)-1]
 	return fr.result
 }
@@ -603,6 +628,7 @@ func runFrame(fr *frame) {
 			panic(engineTrap{msg: fmt.Sprint(r), stack: string(debug.Stack()), where: fr.i.stackNames()})
 		}
 		fr.i.stack = fr.i.stack[:depth]
+		fr.i.arena, fr.i.sp = fr.arena, fr.sp
 		fr.panicking = true
 		fr.panic = r
 		fr.runDefers()
@@ -634,6 +660,9 @@ func runFrame(fr *frame) {
 			}
 		}
 		sym.steps += int64(len(b.instrs))
+		if StepProfile != nil {
+			StepProfile[fr.cf.name] += int64(len(b.instrs))
+		}
 		if sym.steps > fr.i.maxSteps {
 			panic(boundExceeded{fmt.Sprintf("more than %d instructions on one path", fr.i.maxSteps)})
 		}
@@ -699,6 +728,14 @@ func (i *interpreter) ensureInit(pkg *ssa.Package) {
 		return
 	}
 	i.inited[pkg] = true
+	if InitTrace != nil {
+		t0 := time.Now()
+		defer func() {
+			if d := time.Since(t0); d > 50*time.Millisecond {
+				InitTrace(fmt.Sprintf("init of %s took %v", pkg.Pkg.Path(), d))
+			}
+		}()
+	}
 	initFn := pkg.Func("init")
 	if initFn == nil || initFn.Blocks == nil {
 		return
@@ -726,15 +763,20 @@ func (fr *frame) visitTolerant(ci *cinstr) (k continuation) {
 			if f.Pkg != fr.cf.fn.Pkg && f.Name() == "init" {
 				return kNext // imported package: initialised on demand
 			}
+			if f.Pkg == fr.cf.fn.Pkg && strings.HasPrefix(f.Name(), "init#") && skipInitFuncs(f.Pkg.Pkg.Path()) {
+				return kNext // registration-only init functions (schemes, protobuf)
+			}
 		}
 	}
 	steps := fr.i.sym.steps
+	savedArena, savedSP := fr.i.arena, fr.i.sp
 	defer func() {
 		if r := recover(); r != nil {
 			switch r.(type) {
 			case pathAbort, solverTrouble, goroutineSwitch:
 				panic(r)
 			}
+			fr.i.arena, fr.i.sp = savedArena, savedSP
 			why := fmt.Sprintf("%s: %v: %v", fr.cf.fn.Pkg.Pkg.Path(), ci.ins, trapMsg(r))
 			if len(why) > 300 {
 				why = why[:300]
@@ -768,6 +810,20 @@ func (fr *frame) visitTolerant(ci *cinstr) (k continuation) {
 	c := visitInstr(fr, ci)
 	fr.i.sym.steps = steps
 	return c
+}
+
+// skipInitFuncs: packages whose init() functions only register types with
+// reflection-driven registries (schemes, protobuf). Their package-level
+// variable initialisers still run.
+func skipInitFuncs(path string) bool {
+	for _, p := range []string{"k8s.io/api/", "k8s.io/client-go/kubernetes/scheme", "github.com/gogo/protobuf", "github.com/golang/protobuf",
+		"google.golang.org/protobuf", "k8s.io/apimachinery/pkg/apis/meta/v1", "github.com/pingcap/advanced-statefulset/pkg/controller/statefulset",
+		"github.com/pingcap/advanced-statefulset/client/client/clientset/versioned/scheme", "k8s.io/apimachinery/pkg/api/resource"} {
+		if strings.HasPrefix(path, p) {
+			return true
+		}
+	}
+	return false
 }
 
 func trapMsg(r interface{}) string {
